@@ -136,7 +136,8 @@ pub fn run(cfg: &RunCfg, rep: &mut Report) {
                         for mask in 0u32..(1u32 << n) {
                             let raw = |x: &Atom| atoms.iter().position(|y| y == x).map(|k| mask & (1 << k) != 0).unwrap_or(false);
                             let forced = |x: &Atom| raw(x) && !unmet(x);
-                            if q.eval(&forced) != p.eval(&forced) {
+                            // the result must not mention an unmet lock any more: it is read with the RAW assignment
+                            if q.eval(&raw) != p.eval(&forced) {
                                 bad = Some(mask);
                                 break;
                             }
@@ -168,7 +169,8 @@ pub fn run(cfg: &RunCfg, rep: &mut Report) {
                         for mask in 0u32..(1u32 << n) {
                             let raw = |x: &Atom| atoms.iter().position(|y| y == x).map(|k| mask & (1 << k) != 0).unwrap_or(false);
                             let forced = |x: &Atom| raw(x) && !unmet(x);
-                            if q.eval(&forced) != p.eval(&forced) {
+                            // the result must not mention an unmet lock any more: it is read with the RAW assignment
+                            if q.eval(&raw) != p.eval(&forced) {
                                 bad = Some(mask);
                                 break;
                             }
